@@ -33,7 +33,7 @@ import (
 	"go.uber.org/zap"
 )
 
-const c08Roots = 9 // sector universe of a case: roots 1..c08Roots
+const c08Roots = 9 // default sector universe of a case: roots 1..nroots
 
 type c08Contract struct {
 	num  int
@@ -62,6 +62,7 @@ type c08World struct {
 	cons []*c08Contract
 	nvol int // volumes ever added (unique disk paths)
 	ncon int
+	nroots int
 	// placement/eviction happened at least once
 	placed bool
 }
@@ -72,11 +73,12 @@ func c08Root(k int) types.Hash256 {
 	var h types.Hash256
 	h[0] = byte(k)
 	h[1] = 0xc8
+	h[2] = byte(k >> 8)
 	h[31] = byte(k * 7)
 	return h
 }
 
-func c08RootNum(h types.Hash256) int { return int(h[0]) }
+func c08RootNum(h types.Hash256) int { return int(h[0]) | int(h[2])<<8 }
 
 func (w *c08World) step(op, obs string)    { w.res.steps = append(w.res.steps, [2]string{op, obs}) }
 func (w *c08World) count(k string)         { w.res.counts = append(w.res.counts, k) }
@@ -230,7 +232,7 @@ func (w *c08World) snapshot() {
 	if err != nil {
 		w.fatalf("metrics: %v", err)
 	}
-	for r := 1; r <= c08Roots; r++ {
+	for r := 1; r <= w.nroots; r++ {
 		rs = append(rs, fmt.Sprint(r))
 		loc, err := w.db.SectorLocation(c08Root(r))
 		if err == nil {
@@ -422,6 +424,48 @@ func (w *c08World) store(r int, fnOK bool) {
 	w.after("StoreSector")
 }
 
+// storeRemoved: a write whose fn sees the operator remove the very sector (RemoveSector racing
+// the upload) and then fails, so StoreSector rolls its slot back.
+func (w *c08World) storeRemoved(r int) {
+	vols, _ := w.db.Volumes()
+	writable := map[int64]bool{}
+	for _, v := range vols {
+		writable[v.ID] = v.Available && !v.ReadOnly
+	}
+	located, free := false, 0
+	for _, s := range w.slots() {
+		if s.root == r {
+			located = true
+		}
+		if s.root == 0 && writable[s.vol] {
+			free++
+		}
+	}
+	if located || free == 0 {
+		w.store(r, false)
+		return
+	}
+	var loc *storage.SectorLocation
+	var inner error
+	err, p := c08Call(func() error {
+		return w.db.StoreSector(c08Root(r), func(l storage.SectorLocation) error {
+			loc = &l
+			inner = w.db.RemoveSector(c08Root(r))
+			return errC08Fn
+		})
+	})
+	if loc == nil || inner != nil {
+		w.fatalf("storeRemoved: fn not called or inner RemoveSector failed: %v", inner)
+	}
+	w.step(fmt.Sprintf("StoreRemoved %d (Some (%d, %d))", r, loc.Volume, loc.Index), c08ErrTerm(err, p))
+	w.count("op:StoreRemoved:" + c08Outcome(err, p))
+	if p {
+		w.monitor("store-sector-panics", fmt.Sprintf("root %d removed during a failing write", r))
+	}
+	w.placed = true
+	w.after("StoreSector with RemoveSector inside a failing fn")
+}
+
 func (w *c08World) migrate(id int64, start uint64, failRate int) {
 	var calls []string
 	var migrated, failed int
@@ -480,7 +524,16 @@ func (w *c08World) queries(r int) {
 		w.fatalf("has: %v", err)
 	}
 	w.step(fmt.Sprintf("Has %d", r), "OHas "+coqBool(has))
-	// (Store.SectorReferences is not used: it fails to scan for any v1-referenced sector)
+	refs, err := w.db.SectorReferences(c08Root(r))
+	switch {
+	case err == nil:
+		w.step(fmt.Sprintf("Refs %d", r), fmt.Sprintf("ORefs (Some (%d, %d))", len(refs.Contracts), refs.TempStorage))
+	case errors.Is(err, storage.ErrSectorNotFound):
+		w.step(fmt.Sprintf("Refs %d", r), "ORefs None")
+	default:
+		// fixed by fixes/C08-sector-references-scan.patch (integer contract_id scanned into a FileContractID)
+		w.monitor("sector-references-fails", fmt.Sprintf("root %d: %v", r, err))
+	}
 	w.count("op:Queries")
 }
 
@@ -795,8 +848,6 @@ func (w *c08World) reclaim(h uint64) {
 
 // ---------------------------------------------------------------- cases
 
-var c08Heights = []uint64{9, 10, 11, 12, 13, 20, 21}
-var c08Ends = []uint64{10, 11, 12, 20}
 
 func (w *c08World) volume(size uint64) int64 {
 	id := w.addVolume(false)
@@ -907,13 +958,50 @@ func (w *c08World) directed(id int) bool {
 		w.shrink(a, 2)
 		w.shrink(a, 3) // maxSectors > total: dev-error panic
 		w.grow(a, 0)   // dev-error panic
+	case 7: // more rows than one batch of the expire / prune / remove loops (batch = 5 with the testing tag)
+		w.res.desc = "directed: batch loops"
+		w.nroots = 12
+		a := w.volume(12)
+		b := w.volume(12)
+		w.setAvail(b, false)
+		var all []int
+		var chs []c08Change
+		var tmps [][2]uint64
+		for r := 1; r <= 12; r++ {
+			w.store(r, true)
+			all = append(all, r)
+			chs = append(chs, c08Change{kind: "append", r: uint64(r)})
+			tmps = append(tmps, [2]uint64{uint64(r), 10})
+		}
+		c1 := w.addContract(false, 10, 1)
+		c2 := w.addContract(true, 10, 1)
+		w.reviseV1(c1, chs)
+		w.reviseV2(c2, all)
+		w.addTemps(tmps)
+		w.expireV1(11)
+		w.expireTemp(10)
+		w.reclaim(10) // the v2 contract still holds everything
+		w.reclaim(11) // now everything goes, in three batches per loop
+		for r := 1; r <= 12; r++ {
+			w.store(r, true)
+		}
+		w.removeVolume(b, false) // 12 empty slots
+		w.removeVolume(a, true)  // 12 lost sectors
+	case 8: // RemoveSector racing a failing write: the rollback must not release the slot twice
+		w.res.desc = "directed: sector removed during a failing write"
+		w.volume(3)
+		w.store(1, true)
+		w.storeRemoved(2)
+		w.store(2, true)
+		w.removeSector(1)
+		w.storeRemoved(3)
 	default:
 		return false
 	}
 	return true
 }
 
-const c08Directed = 7
+const c08Directed = 9
 
 func (w *c08World) pickVol() (int64, bool) {
 	ids := w.volumeIDs()
@@ -927,31 +1015,68 @@ func (w *c08World) generated() {
 	rng := w.rng
 	w.res.desc = "generated sequence"
 	nv := 1 + rng.Intn(3)
-	for i := 0; i < nv; i++ {
-		w.volume(uint64(1 + rng.Intn(5)))
+	wide := rng.Intn(5) == 0 // more rows than a (testing-tag) batch
+	if wide {
+		w.nroots = 16
+		w.res.desc = "generated sequence (wide)"
 	}
-	steps := 12 + rng.Intn(28)
-	root := func() int { return 1 + rng.Intn(c08Roots) }
+	for i := 0; i < nv; i++ {
+		if wide {
+			w.volume(uint64(4 + rng.Intn(11)))
+		} else {
+			w.volume(uint64(1 + rng.Intn(6)))
+		}
+	}
+	steps := 15 + rng.Intn(30)
+	cur := uint64(8 + rng.Intn(3)) // the "current height" the case revolves around
+	// mostly roots that are on disk, sometimes any
+	root := func() int {
+		if rng.Intn(4) != 0 {
+			var stored []int
+			for _, s := range w.slots() {
+				if s.root != 0 {
+					stored = append(stored, s.root)
+				}
+			}
+			if len(stored) > 0 {
+				return stored[rng.Intn(len(stored))]
+			}
+		}
+		return 1 + rng.Intn(w.nroots)
+	}
+	anyRoot := func() int { return 1 + rng.Intn(w.nroots) }
+	end := func() uint64 { return cur + []uint64{0, 1, 1, 2, 3, 5}[rng.Intn(6)] }
 	for i := 0; i < steps; i++ {
+		burst := 1
+		if wide {
+			burst = 1 + rng.Intn(6)
+		}
 		switch x := rng.Intn(100); {
-		case x < 24:
-			w.store(root(), rng.Intn(8) != 0)
+		case x < 22:
+			for k := 0; k < burst; k++ {
+				if rng.Intn(25) == 0 {
+					w.storeRemoved(anyRoot())
+				} else {
+					w.store(anyRoot(), rng.Intn(8) != 0)
+				}
+			}
 		case x < 30: // temp storage
 			if rng.Intn(3) == 0 {
-				w.addTemp1(root(), c08Ends[rng.Intn(len(c08Ends))])
+				w.addTemp1(root(), end())
 			} else {
 				var l [][2]uint64
-				for k := rng.Intn(3) + 1; k > 0; k-- {
-					l = append(l, [2]uint64{uint64(root()), c08Ends[rng.Intn(len(c08Ends))]})
+				for k := rng.Intn(3) + burst; k > 0; k-- {
+					l = append(l, [2]uint64{uint64(root()), end()})
 				}
 				w.addTemps(l)
 			}
-		case x < 36:
+		case x < 37:
 			if len(w.cons) < 5 {
-				w.addContract(rng.Intn(2) == 0, c08Ends[rng.Intn(len(c08Ends))], uint64(1+rng.Intn(5)))
+				w.addContract(rng.Intn(2) == 0, end(), uint64(1+rng.Intn(5)))
 			}
-		case x < 50: // revise
+		case x < 55: // revise
 			if len(w.cons) == 0 {
+				w.addContract(rng.Intn(2) == 0, end(), uint64(1+rng.Intn(5)))
 				continue
 			}
 			c := w.cons[rng.Intn(len(w.cons))]
@@ -961,12 +1086,12 @@ func (w *c08World) generated() {
 				for _, r := range cur {
 					nr = append(nr, c08RootNum(r))
 				}
-				switch rng.Intn(4) {
-				case 0, 1:
-					for k := rng.Intn(2) + 1; k > 0; k-- {
+				switch rng.Intn(5) {
+				case 0, 1, 2:
+					for k := rng.Intn(2) + burst; k > 0; k-- {
 						nr = append(nr, root())
 					}
-				case 2:
+				case 3:
 					if len(nr) > 0 {
 						nr = nr[:rng.Intn(len(nr))]
 					}
@@ -979,9 +1104,9 @@ func (w *c08World) generated() {
 			} else {
 				var chs []c08Change
 				n := uint64(len(cur))
-				for k := rng.Intn(3) + 1; k > 0; k-- {
+				for k := rng.Intn(3) + burst; k > 0; k-- {
 					switch y := rng.Intn(10); {
-					case y < 5:
+					case y < 6:
 						chs = append(chs, c08Change{kind: "append", r: uint64(root())})
 						n++
 					case y < 7:
@@ -995,7 +1120,11 @@ func (w *c08World) generated() {
 						}
 					case y < 9:
 						if n > 0 || rng.Intn(4) == 0 {
-							chs = append(chs, c08Change{kind: "update", r: uint64(root()), a: uint64(rng.Intn(int(n) + 1))})
+							a := uint64(rng.Intn(int(n) + 1))
+							if n > 0 && rng.Intn(5) != 0 {
+								a = uint64(rng.Intn(int(n)))
+							}
+							chs = append(chs, c08Change{kind: "update", r: uint64(root()), a: a})
 						}
 					default:
 						if n > 0 {
@@ -1005,16 +1134,20 @@ func (w *c08World) generated() {
 				}
 				w.reviseV1(c, chs)
 			}
-		case x < 53:
+		case x < 58:
 			if len(w.cons) > 0 && len(w.cons) < 6 {
-				w.renew(w.cons[rng.Intn(len(w.cons))], c08Ends[rng.Intn(len(c08Ends))]+uint64(rng.Intn(3)), uint64(1+rng.Intn(5)))
+				w.renew(w.cons[rng.Intn(len(w.cons))], end()+uint64(rng.Intn(3)), uint64(1+rng.Intn(5)))
 			}
-		case x < 56:
+		case x < 60:
 			w.reject(uint64(1 + rng.Intn(6)))
 		case x < 66:
-			w.reclaim(c08Heights[rng.Intn(len(c08Heights))])
-		case x < 70:
-			h := c08Heights[rng.Intn(len(c08Heights))]
+			h := cur + uint64(rng.Intn(4)) - 1
+			w.reclaim(h)
+			if rng.Intn(2) == 0 && h > cur {
+				cur = h
+			}
+		case x < 69:
+			h := cur + uint64(rng.Intn(4)) - 1
 			switch rng.Intn(3) {
 			case 0:
 				w.expireV1(h)
@@ -1023,45 +1156,63 @@ func (w *c08World) generated() {
 			default:
 				w.expireTemp(h)
 			}
-		case x < 74:
+		case x < 72:
 			w.prune(rng.Intn(4) != 0)
-		case x < 78:
+		case x < 75:
 			w.removeSector(root())
-		case x < 82:
+		case x < 79:
 			w.queries(root())
-		case x < 85:
+		case x < 82:
 			if id, ok := w.pickVol(); ok {
 				w.setRO(id, rng.Intn(2) == 0)
 			}
-		case x < 87:
+		case x < 84:
 			if id, ok := w.pickVol(); ok {
 				w.setAvail(id, rng.Intn(3) != 0)
 			}
-		case x < 90:
+		case x < 87:
 			if id, ok := w.pickVol(); ok {
 				v, _ := w.db.Volume(id)
 				w.grow(id, v.TotalSectors+uint64(rng.Intn(3)))
 			}
-		case x < 93:
+		case x < 90:
 			if id, ok := w.pickVol(); ok {
 				v, _ := w.db.Volume(id)
 				if v.TotalSectors > 1 {
 					w.shrink(id, 1+uint64(rng.Intn(int(v.TotalSectors)-1)))
 				}
 			}
-		case x < 96:
-			if id, ok := w.pickVol(); ok {
-				v, _ := w.db.Volume(id)
-				if rng.Intn(2) == 0 {
-					w.setRO(id, true)
+		case x < 95: // migration, mostly the way the volume manager does it
+			ids := w.volumeIDs()
+			var cand []int64
+			for _, id := range ids {
+				if v, _ := w.db.Volume(id); v.UsedSectors > 0 {
+					cand = append(cand, id)
 				}
-				fail := 0
-				if rng.Intn(4) == 0 {
-					fail = 50
-				}
-				w.migrate(id, uint64(rng.Intn(int(v.TotalSectors)+1)), fail)
 			}
-		case x < 98:
+			if len(cand) == 0 {
+				continue
+			}
+			id := cand[rng.Intn(len(cand))]
+			v, _ := w.db.Volume(id)
+			if rng.Intn(4) != 0 {
+				w.setRO(id, true)
+			}
+			fail := 0
+			if rng.Intn(4) == 0 {
+				fail = 50
+			}
+			start := uint64(0)
+			if rng.Intn(2) == 0 {
+				start = uint64(rng.Intn(int(v.TotalSectors) + 1))
+			}
+			w.migrate(id, start, fail)
+			if start > 0 && rng.Intn(2) == 0 {
+				w.shrink(id, start)
+			} else if start == 0 && rng.Intn(2) == 0 {
+				w.removeVolume(id, rng.Intn(3) == 0)
+			}
+		case x < 97:
 			if id, ok := w.pickVol(); ok {
 				w.removeVolume(id, rng.Intn(2) == 0)
 			}
@@ -1071,7 +1222,7 @@ func (w *c08World) generated() {
 			}
 		}
 	}
-	w.reclaim(c08Heights[rng.Intn(len(c08Heights))])
+	w.reclaim(cur + uint64(rng.Intn(3)))
 }
 
 func c08RunCase(id int, dir string) (res *c08Result) {
@@ -1087,7 +1238,7 @@ func c08RunCase(id int, dir string) (res *c08Result) {
 		return
 	}
 	defer db.Close()
-	w := &c08World{res: res, rng: verifCaseRand(id), db: db}
+	w := &c08World{res: res, rng: verifCaseRand(id), db: db, nroots: c08Roots}
 	if !w.directed(id) {
 		w.generated()
 	}
